@@ -263,27 +263,28 @@ StepL1(m, cfg) ==
         IF r.res = "none" THEN Susp(r.m)
         ELSE IF r.res = "char" THEN Cont(ApplyChar(r.m, r.c, cfg))
         ELSE Cont(ApplyRun(r.m, r.run, 1, cfg))
-    ELSE IF st = "BeforeAttributeValue" THEN          \* 1254-1266: raw peek
+    ELSE IF st = "BeforeAttributeValue" THEN          \* raw peek; line breaks through the preprocessor
         LET pk == PeekRaw(m) IN
         IF ~pk[1] THEN Susp(m)
-        ELSE LET ch == pk[2] IN
-             IF ch = TAB \/ ch = FF \/ ch = SP \/ ((ch = LF \/ ch = CR) /\ "raw_newlines_before_attr_value" \in Defects)
-             THEN Cont(DiscardRaw(m))
-             ELSE IF ch = LF /\ m.ignoreLf /\ "bav_reconsume_after_crlf" \notin Defects THEN
-                 \* the LF of a CRLF pair was counted with its CR: discarded raw, flag cleared (e9ca008)
-                 Cont([DiscardRaw(m) EXCEPT !.ignoreLf = FALSE])
+        ELSE LET ch == pk[2]
+                 old == "bav_reconsume_after_crlf" \in Defects       \* the code between 2f9794c and 87f874e
+                 \* a pending "skip the LF after a CR" is resolved first, because the reads below are raw (87f874e)
+                 m1 == IF old THEN m ELSE [m EXCEPT !.ignoreLf = FALSE] IN
+             IF ~old /\ m.ignoreLf /\ ch = LF THEN Cont(DiscardRaw(m1))
+             ELSE IF ch = TAB \/ ch = FF \/ ch = SP \/ ((ch = LF \/ ch = CR) /\ "raw_newlines_before_attr_value" \in Defects)
+             THEN Cont(DiscardRaw(m1))
              ELSE IF ch = LF \/ ch = CR THEN
-                 \* other line breaks go through the preprocessor (normalised, counted).  Defect switch: the first
-                 \* repair let the preprocessor skip the LF of a CRLF pair and reconsumed the character after it,
-                 \* which made the parse errors of the unquoted-value state depend on chunking (errors are not
-                 \* modelled here; the real-run comparison of C03 found it)
-                 LET g == GetChar(m) IN
+                 \* line breaks go through the preprocessor (normalised, counted).  Defect switch: the first repair
+                 \* let the preprocessor skip the LF of a CRLF pair and reconsumed the character after it (parse
+                 \* errors then depended on chunking) and left ignore_lf pending across the raw reads (a later LF
+                 \* was swallowed: visible to TokensRefine)
+                 LET g == GetChar(m1) IN
                  IF g.res = "none" THEN Susp(g.m)
                  ELSE IF g.c # LF THEN Cont([g.m EXCEPT !.reconsume = TRUE]) ELSE Cont(g.m)
-             ELSE IF ch = DQ THEN Cont([DiscardRaw(m) EXCEPT !.tz.st = "AttributeValue.DoubleQuoted"])
-             ELSE IF ch = SQ THEN Cont([DiscardRaw(m) EXCEPT !.tz.st = "AttributeValue.SingleQuoted"])
-             ELSE IF ch = GT THEN Cont(ApplyChar(DiscardRaw(m), GT, cfg))
-             ELSE Cont([m EXCEPT !.tz.st = "AttributeValue.Unquoted"])
+             ELSE IF ch = DQ THEN Cont([DiscardRaw(m1) EXCEPT !.tz.st = "AttributeValue.DoubleQuoted"])
+             ELSE IF ch = SQ THEN Cont([DiscardRaw(m1) EXCEPT !.tz.st = "AttributeValue.SingleQuoted"])
+             ELSE IF ch = GT THEN Cont(ApplyChar(DiscardRaw(m1), GT, cfg))
+             ELSE Cont([m1 EXCEPT !.tz.st = "AttributeValue.Unquoted"])
     ELSE IF st = "MarkupDeclarationOpen" THEN
         LET e1 == Eat(m, <<DASH, DASH>>, FALSE) IN
         IF e1.res = "none" THEN Susp(e1.m)
